@@ -373,6 +373,7 @@ func (s *sim) checkResult() {
 	}
 	e.Logf("done ok h=%d t=%d", st.LastBlockHeight, s.simMs())
 	e.Count("result.success")
+	e.Count("result.success." + s.mode)
 	if m.phase != "verifying" {
 		e.Fail("C14", "success-without-restore", "Sync returned state of height %d but the application was not restored and verified (phase %q)", st.LastBlockHeight, m.phase)
 	}
